@@ -1,18 +1,76 @@
 //@unit comm
 //@include models/exchange.rs
+//@thread maybe_poll do_read posix::poll libc_poll .read .write .read_into Instant::now:ro
+
+// ================================================================ the real posix::poll wrapper (its >24.8-day loop), over libc_poll
+pub mod posix_impl {
+use vstd::prelude::*;
+use super::*;
+use super::posix::*;
+use super::io::Result;
+broadcast use {super::posix::poll_lemmas};
+//@source src/posix.rs
+//@fn poll world=mut
+//@attr #[verifier::loop_isolation(false)]
+        requires
+            forall|i: int| 0 <= i < old(fds)@.len() && old(fds)@[i].fd.is_some() ==> 0 <= #[trigger] old(fds)@[i].fd.unwrap().slot@ < 3,
+            covers_live(old(w).s, old(fds)@), //[C01]
+            match timeout { None => old(w).s.deadline.is_none(), Some(d) => old(w).s.deadline.is_some() && (d.ns == 0 || old(w).s.now + d.ns <= old(w).s.deadline.unwrap()) }, //[C04]
+            clock_ok(old(w).s), timeout.is_some() ==> timeout.unwrap().ns < T_MAX,
+        ensures
+            final(fds)@.len() == old(fds)@.len(),
+            forall|i: int| #![trigger final(fds)@[i]] #![trigger old(fds)@[i]] 0 <= i < old(fds)@.len() ==> final(fds)@[i].fd == old(fds)@[i].fd && final(fds)@[i].events == old(fds)@[i].events,
+            final(w).s.now >= old(w).s.now, clock_ok(final(w).s),
+            final(w).s.deadline == old(w).s.deadline,
+            final(w).s.sin == old(w).s.sin, final(w).s.sout == old(w).s.sout, final(w).s.serr == old(w).s.serr,
+            final(w).s.ready_at >= old(w).s.now,
+            old(w).s.deadline.is_some() && old(w).s.now < old(w).s.deadline.unwrap() ==> final(w).s.ready_at < old(w).s.deadline.unwrap(), //[C04]
+            r is Ok ==> forall|i: int| 0 <= i < old(fds)@.len() && old(fds)@[i].fd.is_none() ==> (#[trigger] final(fds)@[i]).revents == 0,
+            r is Ok ==> forall|i: int| 0 <= i < old(fds)@.len() && old(fds)@[i].fd.is_some() ==> allowed_revents(old(fds)@[i].fd.unwrap().slot@, (#[trigger] final(fds)@[i]).revents),
+            r is Ok ==> final(w).s.r0 == slot_ready(final(fds)@, 0) && final(w).s.r1 == slot_ready(final(fds)@, 1) && final(w).s.r2 == slot_ready(final(fds)@, 2),
+            r is Ok ==> (r->Ok_0 == 0 <==> forall|i: int| 0 <= i < old(fds)@.len() ==> (#[trigger] final(fds)@[i]).revents == 0),
+            // a time-out is reported only after the requested time has passed (to the millisecond), also beyond i32::MAX ms
+            r is Ok && r->Ok_0 == 0 ==> timeout.is_some() && final(w).s.now + 1_000_000 > old(w).s.now + timeout.unwrap().ns, //[C04]
+            r is Err ==> r->Err_0.kind != io::ErrorKind::TimedOut && !final(w).s.r0 && !final(w).s.r1 && !final(w).s.r2,
+//@replace 1 /let fds_ptr = fds.as_ptr() as *mut libc::pollfd; let cnt = unsafe { check_err(libc::poll(fds_ptr, fds.len() as libc::nfds_t, timeout_ms))? };/ => /let cnt = libc_poll(fds, timeout_ms, Tracked(w))?;/
+//@entry
+        let ghost timeout0 = timeout;
+//@closure 0 |timeout: Duration| -> (d: Instant)
+            requires w.s.now + timeout.ns <= u128::MAX
+            ensures d.t == w.s.now + timeout.ns
+//@closure 1 |timeout: Duration| -> (p: (i32, bool))
+            ensures p.1 == (timeout.ns / 1_000_000 > i32::MAX as u128), !p.1 ==> p.0 >= 0 && ms_ns(p.0) == floor_ms_ns(timeout), p.1 ==> p.0 == i32::MAX
+//@loop 0
+        invariant
+            fds@.len() == old(fds)@.len(),
+            forall|i: int| #![trigger fds@[i]] #![trigger old(fds)@[i]] 0 <= i < old(fds)@.len() ==> fds@[i].fd == old(fds)@[i].fd && fds@[i].events == old(fds)@[i].events,
+            w.s.now >= old(w).s.now, clock_ok(w.s),
+            w.s.deadline == old(w).s.deadline,
+            w.s.sin == old(w).s.sin, w.s.sout == old(w).s.sout, w.s.serr == old(w).s.serr,
+            timeout.is_some() == deadline.is_some(), timeout0.is_some() == deadline.is_some(),
+            covers_live(w.s, fds@),
+            // the local deadline is the entry clock plus the requested time; what is still to wait never ends before it ...
+            deadline.is_some() ==> deadline.unwrap().t == old(w).s.now + timeout0.unwrap().ns,
+            timeout.is_some() ==> w.s.now + timeout.unwrap().ns >= old(w).s.now + timeout0.unwrap().ns,
+            // ... and never after the deadline of the exchange
+            timeout.is_some() ==> w.s.deadline.is_some() && (timeout.unwrap().ns == 0 || w.s.now + timeout.unwrap().ns <= w.s.deadline.unwrap()),
+            timeout.is_some() ==> timeout.unwrap().ns < T_MAX,
+            w.s.now > old(w).s.now ==> (w.s.deadline.is_some() && w.s.now < w.s.deadline.unwrap()),
+        decreases (if deadline.is_some() && deadline.unwrap().t > w.s.now { deadline.unwrap().t - w.s.now } else { 0 })
+//@end
+}
 //@source src/communicate.rs
-//@thread maybe_poll do_read posix::poll .read .write read_into Instant::now:ro
 
 pub mod raw {
 use vstd::prelude::*;
 use super::*;
-broadcast use {super::posix::poll_lemmas, super::axiom_vec_len_fits};
+use super::posix_impl as posix_w;
+broadcast use {super::posix::poll_lemmas, super::axiom_vec_len_fits, super::bytes_lemmas};
 
 // ---------------------------------------------------------------- spec helpers
 pub open spec fn slot_is(f: Option<&File>, k: int) -> bool { f.is_some() ==> f.unwrap().slot@ == k }
 pub open spec fn rd_ok(s: RStream) -> bool { s.pos <= s.data.len() && (s.eof_seen ==> s.pos == s.data.len()) }
 pub open spec fn dl(deadline: Option<Instant>) -> Option<nat> { match deadline { Some(d) => Some(d.t as nat), None => None } }
-pub open spec fn consumed(s0: RStream, s1: RStream) -> Seq<u8> { s0.data.subrange(s0.pos as int, s1.pos as int) }
 
 //@fn raw[unix]::as_pollfd
         ensures r.fd == f, r.revents == 0, r.events == (if for_read { posix::POLLIN } else { posix::POLLOUT })
@@ -25,8 +83,9 @@ pub open spec fn consumed(s0: RStream, s1: RStream) -> Seq<u8> { s0.data.subrang
             live(old(w).s, 0) ==> fin.is_some(), live(old(w).s, 1) ==> fout.is_some(), live(old(w).s, 2) ==> ferr.is_some(),
             old(w).s.deadline == dl(deadline),
             deadline.is_some() ==> old(w).s.now < deadline.unwrap().t, //[C04]
+            clock_ok(old(w).s), deadline.is_some() ==> deadline.unwrap().t < T_MAX,
         ensures
-            final(w).s.now >= old(w).s.now, final(w).s.deadline == old(w).s.deadline,
+            final(w).s.now >= old(w).s.now, final(w).s.deadline == old(w).s.deadline, clock_ok(final(w).s),
             final(w).s.sin == old(w).s.sin, final(w).s.sout == old(w).s.sout, final(w).s.serr == old(w).s.serr,
             r.is_ok() && r->Ok_0.0 ==> fin.is_some() && may_io(final(w).s, 0),
             r.is_ok() && r->Ok_0.1 ==> fout.is_some() && may_io(final(w).s, 1),
@@ -45,11 +104,11 @@ pub open spec fn consumed(s0: RStream, s1: RStream) -> Seq<u8> { s0.data.subrang
         &&& (c.stdin.is_some() ==> c.stdin.unwrap().slot@ == 0)
         &&& (c.stdout.is_some() ==> c.stdout.unwrap().slot@ == 1)
         &&& (c.stderr.is_some() ==> c.stderr.unwrap().slot@ == 2)
-        &&& rd_ok(w.sout) && rd_ok(w.serr)
+        &&& rd_ok(w.sout) && rd_ok(w.serr) && clock_ok(w)
         &&& (c.stdin.is_some() ==> {
                 &&& w.sin.intended == c.input_data@
                 &&& c.input_pos <= c.input_data@.len()
-                &&& w.sin.accepted =~= c.input_data@.subrange(0, c.input_pos as int)
+                &&& w.sin.accepted == delivered(c.input_data@, c.input_pos as int)
             })
         &&& (live(w, 0) ==> c.stdin.is_some()) && (live(w, 1) ==> c.stdout.is_some()) && (live(w, 2) ==> c.stderr.is_some())
     }
@@ -68,7 +127,7 @@ pub open spec fn consumed(s0: RStream, s1: RStream) -> Seq<u8> { s0.data.subrang
                     let k = old(source_ref).unwrap().slot@;
                     let s0 = rs(old(w).s, k);
                     let s1 = rs(final(w).s, k);
-                    &&& same_cfg(old(w).s, final(w).s)
+                    &&& same_cfg(old(w).s, final(w).s) && (clock_ok(old(w).s) ==> clock_ok(final(w).s))
                     &&& (k != 0 ==> final(w).s.r0 == old(w).s.r0) && (k != 1 ==> final(w).s.r1 == old(w).s.r1) && (k != 2 ==> final(w).s.r2 == old(w).s.r2)
                     &&& final(w).s.sin == old(w).s.sin
                     &&& (k == 1 ==> final(w).s.serr == old(w).s.serr) && (k == 2 ==> final(w).s.sout == old(w).s.sout)
@@ -94,11 +153,12 @@ pub open spec fn consumed(s0: RStream, s1: RStream) -> Seq<u8> { s0.data.subrang
 //@attr #[verifier::loop_isolation(false)]
             requires
                 comm_wf(*old(self), old(w).s),
-                old(w).s.deadline == dl(deadline),
+                old(w).s.deadline == dl(deadline), deadline.is_some() ==> deadline.unwrap().t < T_MAX,
                 old(outvec)@.len() + old(errvec)@.len() + remaining(old(w).s.sout) + remaining(old(w).s.serr) <= usize::MAX,
             ensures
                 comm_wf(*final(self), final(w).s),
-                final(w).s.deadline == old(w).s.deadline,
+                final(w).s.deadline == old(w).s.deadline, final(w).s.now >= old(w).s.now,
+                final(w).s.sout.pos >= old(w).s.sout.pos, final(w).s.serr.pos >= old(w).s.serr.pos,
                 final(self).stdout == old(self).stdout, final(self).stderr == old(self).stderr,
                 final(w).s.sout.data == old(w).s.sout.data, final(w).s.serr.data == old(w).s.serr.data,
                 final(w).s.sin.intended == old(w).s.sin.intended,
@@ -123,15 +183,15 @@ pub open spec fn consumed(s0: RStream, s1: RStream) -> Seq<u8> { s0.data.subrang
                     self.stdout == old(self).stdout, self.stderr == old(self).stderr,
                     old(self).stdin.is_none() ==> self.stdin.is_none(),
                     w.s.sout.data == old(w).s.sout.data, w.s.serr.data == old(w).s.serr.data, w.s.sin.intended == old(w).s.sin.intended,
-                    w.s.sout.pos >= old(w).s.sout.pos, w.s.serr.pos >= old(w).s.serr.pos,
+                    w.s.sout.pos >= old(w).s.sout.pos, w.s.serr.pos >= old(w).s.serr.pos, w.s.now >= old(w).s.now,
                     stdout_ref.is_some() ==> self.stdout.is_some() && stdout_ref.unwrap().slot@ == 1,
                     stderr_ref.is_some() ==> self.stderr.is_some() && stderr_ref.unwrap().slot@ == 2,
                     stdout_ref.is_none() ==> !live(w.s, 1),
                     stderr_ref.is_none() ==> !live(w.s, 2),
                     self.stdin.is_none() ==> !live(w.s, 0),
-                    self.stdin.is_none() && old(self).stdin.is_some() ==> w.s.sin.accepted =~= w.s.sin.intended,
-                    outvec@ =~= old(outvec)@ + consumed(old(w).s.sout, w.s.sout),
-                    errvec@ =~= old(errvec)@ + consumed(old(w).s.serr, w.s.serr),
+                    self.stdin.is_none() && old(self).stdin.is_some() ==> w.s.sin.accepted == w.s.sin.intended,
+                    outvec@ == old(outvec)@ + consumed(old(w).s.sout, w.s.sout),
+                    errvec@ == old(errvec)@ + consumed(old(w).s.serr, w.s.serr),
                     self.stdout.is_none() ==> w.s.sout == old(w).s.sout,
                     self.stderr.is_none() ==> w.s.serr == old(w).s.serr,
                     outvec@.len() + errvec@.len() + remaining(w.s.sout) + remaining(w.s.serr) <= usize::MAX,
@@ -139,7 +199,107 @@ pub open spec fn consumed(s0: RStream, s1: RStream) -> Seq<u8> { s0.data.subrang
                 decreases
                     m_in(*self) + m_r(stdout_ref, w.s.sout) + m_r(stderr_ref, w.s.serr), //[C01]
 //@end
+
+//@fn raw[unix]::RawCommunicator::new vis=pub
+            ensures r.stdin == stdin, r.stdout == stdout, r.stderr == stderr, r.input_pos == 0,
+                r.input_data@ == (match input_data { Some(v) => v@, None => Seq::<u8>::empty() }),
+//@end
+
+//@fn raw[unix]::RawCommunicator::read world=mut
+            requires
+                comm_wf(*old(self), old(w).s),
+                old(w).s.deadline == dl(deadline), deadline.is_some() ==> deadline.unwrap().t < T_MAX,
+                remaining(old(w).s.sout) + remaining(old(w).s.serr) <= usize::MAX,
+            ensures
+                read_post(*old(self), *final(self), old(w).s, final(w).s, size_limit, r.0.is_none(), r.1),
+                final(w).s.deadline == old(w).s.deadline, final(w).s.now >= old(w).s.now,
+                r.0.is_some() && r.0.unwrap().kind == io::ErrorKind::TimedOut ==> deadline.is_some() && final(w).s.now + 1_000_000 > deadline.unwrap().t, //[C04]
+//@closure 0 |_f: &File| -> (v: Vec<u8>)
+                ensures v == outvec
+//@closure 1 |_f: &File| -> (v: Vec<u8>)
+                ensures v == errvec
+//@end
     }
+
+    // what one read() call promises about the captured data, whether it ended in Ok or in an error (C02, C03, C04 "carries everything captured")
+    pub open spec fn read_post(c0: RawCommunicator, c1: RawCommunicator, w0: WorldState, w1: WorldState, size_limit: Option<usize>, ok: bool,
+                               cap: (Option<Vec<u8>>, Option<Vec<u8>>)) -> bool {
+        &&& comm_wf(c1, w1)     // resumable: the next read() starts from a consistent state, on every exit
+        &&& c1.stdout == c0.stdout && c1.stderr == c0.stderr
+        &&& w1.sout.data == w0.sout.data && w1.serr.data == w0.serr.data && w1.sin.intended == w0.sin.intended
+        // a stream is reported iff it was piped; what is reported is exactly what was consumed from that pipe by this call
+        &&& cap.0.is_some() == c0.stdout.is_some() && cap.1.is_some() == c0.stderr.is_some()
+        &&& (cap.0.is_some() ==> cap.0.unwrap()@ == consumed(w0.sout, w1.sout))
+        &&& (cap.1.is_some() ==> cap.1.unwrap()@ == consumed(w0.serr, w1.serr))
+        &&& (c0.stdout.is_none() ==> w1.sout == w0.sout) && (c0.stderr.is_none() ==> w1.serr == w0.serr)
+        &&& w1.sout.pos >= w0.sout.pos && w1.serr.pos >= w0.serr.pos
+        // size limit
+        &&& (size_limit.is_some() ==> (w1.sout.pos - w0.sout.pos) + (w1.serr.pos - w0.serr.pos) <= size_limit.unwrap())
+        // success below the limit: everything is finished, stdin closed after the whole input
+        &&& (ok && (size_limit.is_none() || (w1.sout.pos - w0.sout.pos) + (w1.serr.pos - w0.serr.pos) < size_limit.unwrap())
+                ==> c1.stdin.is_none() && !live(w1, 0) && !live(w1, 1) && !live(w1, 2))
+        &&& (c1.stdin.is_none() && c0.stdin.is_some() ==> w1.sin.accepted == w1.sin.intended)
+    }
+}
+
+// ================================================================ public layer of communicate.rs
+pub mod comm_api {
+use vstd::prelude::*;
+use super::*;
+use super::raw::*;
+broadcast use {super::posix::poll_lemmas, super::axiom_vec_len_fits, super::bytes_lemmas};
+
+//@struct Communicator pubfields
+//@struct CommunicateError pubfields
+
+impl Communicator {
+//@fn Communicator::new
+        ensures r.inner.stdin == stdin, r.inner.stdout == stdout, r.inner.stderr == stderr, r.inner.input_pos == 0,
+            r.inner.input_data@ == (match input_data { Some(v) => v@, None => Seq::<u8>::empty() }),
+            r.size_limit.is_none(), r.time_limit.is_none(),
+//@end
+
+//@fn Communicator::read world=mut
+        requires
+            comm_wf(old(self).inner, old(w).s),
+            remaining(old(w).s.sout) + remaining(old(w).s.serr) <= usize::MAX,
+            old(self).time_limit.is_some() ==> old(self).time_limit.unwrap().ns < 0x1_0000_0000_0000_0000_0000_0000,
+        ensures
+            final(self).size_limit == old(self).size_limit, final(self).time_limit == old(self).time_limit,
+            // the deadline of this call is the clock at the call (or an instant shortly after) plus the time limit; none without a limit
+            match old(self).time_limit { Some(t) => final(w).s.deadline.is_some() && final(w).s.deadline.unwrap() >= old(w).s.now + t.ns, None => final(w).s.deadline.is_none() }, //[C04]
+            match r {
+                Ok(cap) => read_post(old(self).inner, final(self).inner, old(w).s, final(w).s, old(self).size_limit, true, cap),
+                // the error carries everything captured during this call
+                Err(e) => read_post(old(self).inner, final(self).inner, old(w).s, final(w).s, old(self).size_limit, false, e.capture), //[C02,C03,C04]
+            },
+            // a timeout is reported only if a limit was set and has really elapsed (to the millisecond)
+            r is Err && r->Err_0.error.kind == io::ErrorKind::TimedOut ==> old(self).time_limit.is_some() && final(w).s.now + 1_000_000 > old(w).s.now + old(self).time_limit.unwrap().ns, //[C04]
+//@closure 0 |timeout: Duration| -> (d: Instant)
+            requires w.s.now + timeout.ns <= u128::MAX
+            ensures d.t == w.s.now + timeout.ns
+//@replace 1 /match self.inner.read(/ => /proof { begin_read(w, dl(deadline)); } match self.inner.read(/
+//@end
+
+//@fn Communicator::limit_size
+//@selfmut
+        ensures r.size_limit == Some(size), r.time_limit == self.time_limit, r.inner == self.inner,
+//@end
+
+//@fn Communicator::limit_time
+//@selfmut
+        ensures r.time_limit == Some(time), r.size_limit == self.size_limit, r.inner == self.inner,
+//@end
+}
+
+//@fn communicate
+        requires
+            // documented panics
+            stdin.is_some() == input_data.is_some(),
+        ensures r.inner.stdin == stdin, r.inner.stdout == stdout, r.inner.stderr == stderr, r.inner.input_pos == 0,
+            r.inner.input_data@ == (match input_data { Some(v) => v@, None => Seq::<u8>::empty() }),
+            r.size_limit.is_none(), r.time_limit.is_none(),
+//@end
 }
 } // verus!
 fn main() {}
